@@ -242,7 +242,9 @@ def check_stall(sch, c, run, where):
     """lost wake-up: a packet is queued, the loop thread is parked in select() with nothing ready, and nobody is
     inside _packet_queue about to send the wake byte"""
     n = collections.deque.__len__(c._out_packet)
-    if n and c._sock is not None and loop_parked(sch):
+    # while a socket exists whose CONNECT is not queued yet (another thread is inside reconnect()) nothing may be written on it:
+    # the queuing of CONNECT wakes the loop, the packet is not waiting for a select() time-out
+    if n and c._sock is not None and getattr(c, "_connect_queued", True) and loop_parked(sch):
         busy = [t.name for t in sch.ts if t.state != S.FINISHED and t.name != "L" and t.pending_wake]
         if not busy:
             run.stalls.append({"where": where, "queued": n, "clock": sch.clock.t})
